@@ -508,7 +508,12 @@ class StandardBaseContext(Context,
                         # not a number (e.g. a tuple of results)
                         return cvalue
             value = f(*args, **kwargs)
-            f_cache[key] = (prec, value)
+            if isinstance(value, ctx.matrix):
+                # (mutable: the cache keeps its own copy, as a hit hands
+                # out a copy)
+                f_cache[key] = (prec, value.copy())
+            else:
+                f_cache[key] = (prec, value)
             return value
         f_cached.__name__ = f.__name__
         f_cached.__doc__ = f.__doc__
